@@ -1190,7 +1190,7 @@ example : liftGuard exSchema liftDoc 2 3 1 0 = true ∧ liftGuard lift2Schema li
         parent's content, marks included (`insMarkSchema` below: a marked paragraph into `doc`);
     (b) when `pos` is strictly inside a text child and the parent approves, `insert_point` returns `pos` itself; the test
         read "`n` in front of that text", the insertion puts `n` between its two halves (`insTextSchema` below: content
-        `image? text image`).  Inside a text child of a `text*` / `inline*` parent the insertion does succeed; the
+        `image? text* image`).  Inside a text child of a `text*` / `inline*` parent the insertion does succeed; the
         theorem below does not cover that case (its weakest guard there would be
         `parent.can_replace(index + 1, index + 1, [n, text])`; not proved: the replace lemma for a cut text child). -/
 
@@ -1274,11 +1274,11 @@ theorem insertPoint_needs_guard_marks :
   simp [Schema.apply, Schema.fromReplace, Schema.replace, exDoc, replaceKids,
     inRange, depthAt, Slice.wf, spineL, spineR, outer, atLevel, fcut, fcutLoop, fappend, addNode, hv, Except.map]
 
-/-- the guard is needed, (b): `p: image? text image`; in `doc(p("ab", image))` an image is approved at position 2,
+/-- the guard is needed, (b): `p: image? text* image`; in `doc(p("ab", image))` an image is approved at position 2,
     between "a" and "b" (`can_replace_with(0, 0, image)`: `image text image`) -/
 private def insTextSchema : Schema :=
   { nodes := #[cexNT "doc" false #[⟨false, [(1, 1)]⟩, ⟨true, [(1, 1)]⟩],
-      cexNT "p" false #[⟨false, [(3, 1), (2, 2)]⟩, ⟨false, [(2, 2)]⟩, ⟨false, [(3, 3)]⟩, ⟨true, []⟩],
+      cexNT "p" false #[⟨false, [(3, 1), (2, 2)]⟩, ⟨true, [(2, 2), (3, 3)]⟩, ⟨false, [(2, 2), (3, 3)]⟩, ⟨true, []⟩],
       { cexNT "text" true #[⟨true, []⟩] with isText := true, isInline := true },
       { cexNT "image" true #[⟨true, []⟩] with isInline := true }],
     marks := #[], top := 0, textTy := 2 }
